@@ -98,7 +98,7 @@ pub fn run(ctx: &Ctx) -> EvidenceMeta {
         ));
         ctx.merge_stats(st);
     }
-    drive(ctx, &PROP, 4_000, 200_000);
+    drive(ctx, &PROP, 25_000, 800_000);
     EvidenceMeta {
         rule: "call histories over {send (4 ids, all classes, sealed/unsealed, 3 destinations), send+configure_timeout, advance (0, ms, to \
                the next wake-up -d / exactly / +d, far), poll, drain, response (known/unknown id, success/error, unsigned / signed with \
